@@ -95,7 +95,7 @@ PROPS = {
               "(V3).",
               "equality of the repeated and the retyped execution (relational, behavioural); the "
               "bounds of the recording/push-back buffers are decided under C05 (B1)."),
-    "C10": _p(["R4", "R5", "R6", "R9", "K4"],
+    "C10": _p(["R4", "R5", "R6", "R9", "K4", "R11"],
               "greedy / left-biased priority as a property of the fork instruction (a1 tried recursively, state restored from a copy, then a2) and of each of the four places that emit one (a1 -> the sub-pattern that follows, a2 -> after it / deferred / loop-back), alternation emits the left branch first (R4); the scan starts at the subject start, advances one decoded character and returns the first success (R5); each bracket class name denotes exactly the C-locale predicate's ASCII set (R6); every built-in pattern set needs at most NGRPS/2 groups by the repository's own group-count rule, so no alternative's marks are dropped and the reported index can be the matching one (K4).",
               "genuineness of matches, capture spans, completeness within the depth limit (behavioural over runtime strings; the proposed depth-limit counter hook is a runtime device and is not used)."),
     "C17": _p(["K1", "K5", "B3", "T4"],
@@ -116,7 +116,7 @@ PROPS = {
     "C16": _p(["T1", "T2", "T3", "T4", "R5"],
               "the lead-byte length classes, masks and shifts of uc_len/uc_code equal RFC 3629's for all 256 lead bytes x continuation combinations, and the continuation-scanning uc_end agrees with the lead-byte length on well-formed input (T3); the regex engine's private uc_len/uc_dec/uc_beg equal the editor's on all well-formed inputs, by abstract evaluation of both ASTs (T2); no constant byte step is taken on line text without ASCII knowledge (T1).",
               "agreement of the helpers built on next/previous over all strings (that is exhaustive execution); T4 (character counts never used as byte offsets) is not implemented."),
-    "C11": _p(["R1", "R10", "R2", "R3", "R5", "R7", "R8", "B3", "B6"],
+    "C11": _p(["R1", "R10", "R11", "R2", "R3", "R5", "R7", "R8", "B3", "B6"],
               "the compiled program fits its allocation: rnode_count and rnode_emit/rnode_emitnorep are abstractly evaluated as cost functions (re_insert = 1, children symbolic) for every node kind and every repetition pair that rnode_atom admits (value ranges of the digit accumulation, rejection tests evaluated per cell) and estimate - emitted has only non-negative coefficients; jmpend pushes <= NREPS; regcomp adds its own 3 (R1); the estimate is a bounded quantity: every return of rnode_count is proved <= a constant cap, its arithmetic cannot leave int with children at the cap on every admitted cell, and regcomp allocates and emits only when the estimate is strictly below the cap, i.e. no clamp fired (R10); recursion is depth-guarded and 256 frames fit 1 MiB (R2); the private decoders and the bracket scanner never read or step past the terminator, by exhaustive abstract evaluation over all byte strings up to length 4-5 of a representative alphabet (R3); marks beyond the limit are dropped, reads of marks are index-guarded (R7); pattern allocations are exact (B3) and out-arrays large enough (B6).",
               "termination of matching in general; that offsets fall on character boundaries for literal runs rests on the pattern being valid UTF-8."),
     "C15": _p(["S4", "G1", "G2", "G4", "B11"],
